@@ -10,3 +10,4 @@ import TeosVerif.Props.C12
 #print axioms Teos.C12.block_path_self_wait
 #print axioms Teos.C12.bad_states_reachable
 #print axioms Teos.C12.poll_partial_progress_kept
+#print axioms Teos.C12.outage_noticed_means_flag_down
